@@ -341,7 +341,7 @@ class Engine:
         s.fork_limit = None
         import os as _os
         s.dump_dir = _os.environ.get('VERIF_SMT_DUMP')
-        s.dump_every = int(_os.environ.get('VERIF_SMT_EVERY', '997'))
+        s.dump_every = int(_os.environ.get('VERIF_SMT_EVERY', '97'))
         s.dump_count = 0
         s.stack = []
         s.known = {}
@@ -613,8 +613,7 @@ class Engine:
         target = s.resolve_cache.get(key)
         if target is None:
             target = s.resolve(callee, env, crate)
-            if target[0] != 'dynamic':
-                s.resolve_cache[key] = target
+            s.resolve_cache[key] = target
         kind = target[0]
         if kind == 'fn':
             return s.call_fn(target[1], args, target[2])
@@ -632,7 +631,7 @@ class Engine:
     def resolve(s, callee, env, crate):
         txt = subst_env(callee, env)
         # Fn-trait calls on closure / fn-item values
-        if re.match(r'^<.* as Fn(Mut|Once)?<.*>>::call(_mut|_once)?$', txt):
+        if _FN_CALL_RE.match(txt):
             return ('fnvalue',)
         m = _TRAIT_CALL_RE.match(txt)
         if m:
@@ -821,6 +820,7 @@ class Frame(list):
         s.env = None
 
 
+_FN_CALL_RE = re.compile(r'^<.* as Fn(Mut|Once)?<.*>>::call(_mut|_once)?$')
 _TRAIT_CALL_RE = re.compile(r'^<(.*) as ([\w:]+?)(<.*>)?>::(\w+)(?:::<.*>)?$')
 
 
